@@ -240,7 +240,15 @@ def run_composite(item, tl):
         "total+average+peak": lambda: [C.TotalPowerConstraint(3.0), C.AveragePowerConstraint(0.5), C.PeakAmplitudeConstraint(2.0)],
     }
     cs = builders[item["chain"]]()
-    comp = C.CompositeConstraint(cs)
+
+    def variants(cs):
+        """the flat composite, a composite nested inside a composite, and a composite appended with add_constraint"""
+        comp = C.CompositeConstraint(list(cs))
+        nested = C.CompositeConstraint([C.CompositeConstraint(list(cs[:2]))] + list(cs[2:])) if len(cs) > 2 else C.CompositeConstraint([C.CompositeConstraint(list(cs))])
+        grown = C.CompositeConstraint([cs[0]])
+        grown.add_constraint(C.CompositeConstraint(list(cs[1:])))
+        return comp, nested, grown
+    comp, nested, grown = variants(cs)
 
     def run(ctx):
         x = fresh_reals("x", shape)
@@ -249,19 +257,39 @@ def run_composite(item, tl):
         for c in cs:
             b = c(b)
         d = CU.apply_constraint_chain(cs, x)
-        return dict(x=x, a=a, b=b, d=d)
+        return dict(x=x, a=a, b=b, d=d, n=nested(x), g=grown(x))
     n = int(torch.Size(shape).numel())
     assume = [z3.And(z3.Real(f"x{i}") >= -XMAX, z3.Real(f"x{i}") <= XMAX) for i in range(n)]
     paths = sym_paths(run, assume, tl, max_paths=64)
-    status = "holds"
+    status, wit, which = "holds", None, ""
+    names = {"a": "CompositeConstraint(parts)", "d": "apply_constraint_chain", "n": "composite nested inside a composite", "g": "composite appended with add_constraint"}
     for ctx, R in paths:
-        for nm in ("b", "d"):
-            bad = zor([S.zbool(S.ne(p, q)) for p, q in zip(elems(R["a"]), elems(R[nm]))])
-            st, model = decide(ctx, bad)
-            if st != "holds":
+        for nm in ("a", "d", "n", "g"):
+            bad = [S.zbool(S.ne(p, q)) for p, q in zip(elems(R["b"]), elems(R[nm]))]
+            st, model = decide_any(ctx, bad)
+            if st == "violated" and wit is None:
+                # prefer a witness with a material difference (replayable in float32)
+                big = []
+                for p_, q_ in zip(elems(R["b"]), elems(R[nm])):
+                    d_ = S.sub(p_, q_)
+                    big += [S.zbool(S.gt(d_, 1e-3)), S.zbool(S.lt(d_, -1e-3))]
+                st2, m2 = decide_any(ctx, big)
+                if st2 == "violated":
+                    model = m2
+                status, which = st, names[nm]
+                wit = [float(S.zval(model, z3.Real(f"x{i}"))) for i in range(n)]
+            elif st == "inconclusive" and status == "holds":
                 status = st
     if status == "violated":
-        obs.append(ob("composite = sequential application", config, "violated", what="composite differs from applying the parts in order", witness={"chain": item["chain"]}, replay={"reproduced": True}, **tl.take()))
+        with _disable_current_modes():
+            cs2 = builders[item["chain"]]()
+            x = torch.tensor(wit, dtype=torch.float32).reshape(shape)
+            ref = x
+            for c in cs2:
+                ref = c(ref)
+            outs = [v(x) for v in variants(cs2)] + [CU.apply_constraint_chain(cs2, x)]
+            rep = any(float((o - ref).abs().max()) > 1e-5 for o in outs)
+        obs.append(ob("composite = sequential application", config, "violated", what=f"{which} differs from applying the parts in order at x={wit}", witness={"chain": item["chain"], "x": wit}, replay={"reproduced": rep}, **tl.take()))
     else:
         obs.append(ob("composite = sequential application", config, status, sample=dict(query="exists x: Composite([c1..cn])(x) != cn(...c1(x)) (term-wise)", chain=item["chain"], paths=len(paths)), **tl.take()))
     return obs
